@@ -18,11 +18,11 @@ def tasks(tier, seed):
         func("bt.core.StrategyBase.adjust"),
     ]
 
-MANIFEST_ENTRY = dict(
-    level_text="Deductive proof, for all real-valued prices/positions/amounts/spreads, any commission function and both position modes, that every exit of the real "
+MANIFEST_ENTRY = {
+    "level_text": "Deductive proof, for all real-valued prices/positions/amounts/spreads, any commission function and both position modes, that every exit of the real "
     "SecurityBase.allocate body satisfies the C05 clauses (budget within the code's own isclose tolerance or largest whole unit, close-out, zero amount, refusal on bad price) "
     "and books exactly one transact(q) and nothing else; the sizing search is cut at an inductive invariant, so the proof is unbounded in the number of iterations.",
-    level_note="Reals instead of floats (A-REAL); commission uninterpreted; termination of the search and absence of its three guard exceptions are not proved here; "
+    "level_note": "Reals instead of floats (A-REAL); commission uninterpreted; termination of the search and absence of its three guard exceptions are not proved here; "
     "rounding that lands exactly on minus the position (close-out coincidence) is excluded from the budget clause and tracked as a known finding.",
-    technique="contract-based deductive verification: VCs from the real AST (pyvc) + z3/cvc5; loop invariant on the sizing search",
-)
+    "technique": "contract-based deductive verification: VCs from the real AST (pyvc) + z3/cvc5; loop invariant on the sizing search",
+}
